@@ -17,11 +17,11 @@ desc = json.load(open(sys.argv[3])) if len(sys.argv) > 3 else {}
 ENV = dict(os.environ, GOFLAGS="-mod=mod", GOPROXY="off", GOSUMDB="off", GOTOOLCHAIN="local")
 PKGDIR = {"zerolog": ".", "zerolog_test": ".", "hlog": "hlog", "hlog_test": "hlog", "cbor": "internal/cbor", "json": "internal/json",
           "diode": "diode", "diode_test": "diode", "diodes": "diode/internal/diodes", "diodes_test": "diode/internal/diodes",
-          "log": "log", "log_test": "log", "mutil": "hlog/internal/mutil"}
+          "log": "log", "log_test": "log", "mutil": "hlog/internal/mutil", "journald": "journald", "journald_test": "journald", "pkgerrors": "pkgerrors", "pkgerrors_test": "pkgerrors"}
 
 
-def sh(cmd, cwd):
-    return subprocess.run(cmd, shell=True, cwd=cwd, env=ENV, stdout=subprocess.PIPE, stderr=subprocess.STDOUT, text=True)
+def sh(cmd, cwd, env=None):
+    return subprocess.run(cmd, shell=True, cwd=cwd, env=dict(ENV, **(env or {})), stdout=subprocess.PIPE, stderr=subprocess.STDOUT, text=True)
 
 
 def confirm(pid):
@@ -36,18 +36,20 @@ def confirm(pid):
     d = PKGDIR.get(pkg)
     if d is None:
         return pid, None, "unknown package " + pkg
+    names = re.findall(r"^func (Test\w+)\(", open(demo).read(), re.M)
+    only = "-run '^(%s)$'" % "|".join(names) if names else ""  # the demonstration's tests, not the package's own (journald's fail without a daemon)
     res = {}
-    for tags in ("", "-tags binary_log"):
+    for tags, genv in (("", None), ("-tags binary_log", None), ("", {"GOARCH": "386"})):
         if tags == "" and re.search(r"^//go:build binary_log", open(demo).read(), re.M):
             continue
         shutil.copy(demo, f"{wt}/{d}/zz_C_demo_test.go")
-        base = sh(f"go test -vet=off -count=1 {tags} ./{d}", wt).stdout.strip().splitlines()[-1]
+        base = sh(f"go test -vet=off -count=1 {only} {tags} ./{d}", wt, genv).stdout.strip().splitlines()[-1]
         if sh(f"git apply {out}/C.diff", wt).returncode != 0:
             sh("git checkout -q -- . && git clean -fdq", wt)
             return pid, None, "patch does not apply"
-        withc = sh(f"go test -vet=off -count=1 {tags} ./{d}", wt).stdout.strip().splitlines()[-1]
+        withc = sh(f"go test -vet=off -count=1 {only} {tags} ./{d}", wt, genv).stdout.strip().splitlines()[-1]
         os.remove(f"{wt}/{d}/zz_C_demo_test.go")
-        res = {"tags": tags, "demo_without": base[:60], "demo_with": withc[:60]}
+        res = {"tags": tags + (" GOARCH=386" if genv else ""), "demo_without": base[:60], "demo_with": withc[:60]}
         if base.startswith("ok") and not withc.startswith("ok"):
             break
         sh("git checkout -q -- . && git clean -fdq", wt)
@@ -86,7 +88,7 @@ for pid, res, verdict in results:
     json.dump(meta, open(f"{dst}/meta.json", "w"), indent=1)
     if subprocess.run(f"git -C /repo apply --check {dst}/patch.diff", shell=True).returncode != 0:
         print(pid, "WARNING: patch does not apply to /repo")
-done = {pid for pid, res, verdict in results if not verdict.startswith("no ")}  # an agent without deliverables may still be working
+done = {pid for pid, res, verdict in results if verdict in ("confirmed", "suite differs")}  # anything else may need a closer look, or its agent may still be working
 for pid in sorted(done):
     subprocess.run(f"git -C /repo worktree remove --force {root}/{pid}/wt", shell=True, stdout=subprocess.DEVNULL, stderr=subprocess.DEVNULL)
 subprocess.run("git -C /repo worktree prune", shell=True)
